@@ -30,6 +30,15 @@ def main():
         m = re.search(r'test result: (\w+)\. (\d+) passed; (\d+) failed', out)
         tests_ok = bool(m) and m.group(1) == 'ok' and m.group(2) == '94'
         sh('git checkout -- src', cwd=wt)
+        if os.environ.get('EVAL_NO_CHECKS'):
+            # only confirm and store the patch; the checks are run by selftest/par_run.py on scratch copies of /repo
+            d = os.path.join(VERIF, 'refactors', sid)
+            os.makedirs(d, exist_ok=True)
+            shutil.copy(patch, os.path.join(d, 'patch.diff'))
+            json.dump({'id': sid, 'tests_pass': tests_ok, 'tests': m.group(0) if m else out[-200:], 'alarms': [], 'checks': {},
+                       'author_notes': notes[:4000]}, open(os.path.join(d, 'meta.json'), 'w'), indent=1)
+            print('stored %-8s tests=%s' % (sid, 'pass' if tests_ok else 'FAIL'))
+            continue
         rc, o = sh('git -C /repo status --porcelain')
         if o.strip():
             raise SystemExit('/repo not clean')
